@@ -133,7 +133,8 @@ def gen_shape_case(idx, row):
     out.append('    fn build() -> %s { %s { v: %s } }' % (H, H, ctor))
     out.append('    fn probes(&self) -> Vec<&P<%s>> { let self_ = self; vec![%s] }' % (H, ', '.join(g.paths)))
     out.append('}')
-    borrows = ''.join('let _g%d = (%s).%s(); ' % (i, b.replace('self_', 'hr'), meth) for i, (b, meth) in enumerate(g.borrows))
+    # the guards are leaked (safe): the cell stays borrowed for the rest of its life, also while the value is finalized and dropped
+    borrows = ''.join('std::mem::forget((%s).%s()); ' % (b.replace('self_', 'hr'), meth) for i, (b, meth) in enumerate(g.borrows))
     t = [bool(v['t']) for v in vis]
     f = [bool(v['f']) for v in vis]
     out.append('fn case_%d(rep: &mut Report) {' % idx)
@@ -144,16 +145,11 @@ def gen_shape_case(idx, row):
     out.append('      { let hr: &%s = unsafe { &*(&*h as *const %s) }; let _ = hr; %scollect_cycles(); }' % (H, H, borrows))
     out.append('      let calls = holder_calls(); rep.check(calls > 0, || format!("{}: holder never traced", name));')
     out.append('      for i in 0..%d { let exp = if traced[i] { calls } else { 0 }; rep.check(tr(i) == exp, || format!("{}: leaf {} traced {} times in {} trace calls, expected {}", name, i, tr(i), calls, exp)); }' % g.n)
-    if not has_borrowed:
-        out.append('      reset(%d); drop(h); rep.check(drops() == 1, || format!("{}: value not dropped by the last owner", name));' % g.n)
-        out.append('      for i in 0..%d { let exp = if fin[i] { 1 } else { 0 }; rep.check(fi(i) == exp, || format!("{}: finalize forwarded {} times to leaf {}, expected {}", name, fi(i), i, exp)); }' % g.n)
-    else:
-        out.append('      std::mem::forget(h);')
+    out.append('      reset(%d); drop(h); rep.check(drops() == 1, || format!("{}: value not dropped by the last owner", name));' % g.n)
+    out.append('      for i in 0..%d { let exp = if fin[i] { 1 } else { 0 }; rep.check(fi(i) == exp, || format!("{}: finalize forwarded {} times to leaf {}, expected {}", name, fi(i), i, exp)); }' % g.n)
     out.append('    }')
     # (2) a cycle through every leaf position
     out.append('    for k in 0..%d {' % g.n)
-    if has_borrowed:
-        out.append('      if traced[k] { continue; }  // a guard of the borrowed RefCell would outlive the reclaimed value')
     out.append('      let base_bytes = rust_cc::state::allocated_bytes().unwrap();')
     out.append('      reset(%d); let h = Cc::new(%s::build());' % (g.n, H))
     out.append('      { let pr = h.probes(); *pr[k].link.borrow_mut() = Some(h.clone()); }')
@@ -163,7 +159,7 @@ def gen_shape_case(idx, row):
     out.append('      rep.check(drops() == 0, || format!("{}: value reclaimed while still held (cycle through leaf {})", name, k));')
     out.append('      rep.check(drops() == 0, || format!("[C01] {}: a value held by the program was reclaimed (cycle through leaf {})", name, k));')
     out.append('      drop(h);')
-    out.append('      { %scollect_cycles(); collect_cycles(); }' % borrows)
+    out.append('      { collect_cycles(); collect_cycles(); }')
     out.append('      let exp = if traced[k] { 1 } else { 0 };')
     out.append('      rep.check(drops() == exp, || format!("{}: cycle through leaf {} reclaimed {} times, expected {}", name, k, drops(), exp));')
     out.append('      if traced[k] { rep.check(drops() >= 1, || format!("[C02] {}: the unreachable cycle through leaf {} (a traced position) was not reclaimed", name, k)); }')
